@@ -54,7 +54,7 @@ def check(prog, run):
     try:
         from . import c01, c15
         m = c01.Model(prog)
-        c01.r6(m, c15._Map(run, {"R6": "R5"}))
+        c01.r6(m, c15._Map(run, {"R6": "R5"}, skip=lambda key: "key-flag" in key or "is_keyframe" in key))
     except Exception as e:
         run.bad("R5", "anchor", "cannot derive the writers' queued records (fail closed): %s" % e)
     run.rule("R6", "ADTS header fields are read at the bit positions of ISO/IEC 13818-7 (every mask/shift on a header byte selects exactly one field's bits in that byte)")
